@@ -925,3 +925,7 @@ mod tests {
         );
     }
 }
+
+#[cfg(kani)]
+#[path = "/verif/harness/app_measurement.rs"]
+mod verif_harness;
